@@ -252,6 +252,10 @@ class Prop:
     def shrink(self, case, still_fails):
         return case
 
+    def revive(self, case):
+        """a case read back from JSON -> the form the generator produces (default: unchanged)"""
+        return case
+
     def prepare(self, cases):
         """Called with a batch of cases before they are evaluated (e.g. to run expensive steps in parallel)."""
         return None
@@ -384,6 +388,7 @@ def run_check(prop_cls, tier, seed, replay=None):
         with open(replay) as f:
             rj = json.load(f)
         cases = [rj['case']] if 'case' in rj else [x['case'] for x in rj.get('failures', [])]
+        cases = [prop.revive(c) for c in cases]
     else:
         cases = list(prop.corpus())
         n_corpus = len(cases)
@@ -452,6 +457,7 @@ def run_check(prop_cls, tier, seed, replay=None):
             if not isinstance(inp, dict):
                 continue
             try:
+                inp = prop.revive(inp)
                 prop.prepare([inp])
                 fs = prop.oracle(inp)
                 evaluations += 1
